@@ -44,6 +44,12 @@ impl Uci {
             let trimmed = line.trim();
             let fields: Vec<_> = trimmed.split_whitespace().collect();
 
+            #[cfg(rce_verif)]
+            if trimmed == "verif_dump" {
+                self.verif_dump();
+                continue;
+            }
+
             let command = match UCICommand::new(&fields) {
                 Ok(cmd) => cmd,
                 Err(err) => {
@@ -56,9 +62,13 @@ impl Uci {
                 break;
             }
 
+            #[cfg(rce_verif)]
+            crate::verif_hooks::sched_point("uci.cmd.pre");
             self.execute_command(command).unwrap_or_else(|err| {
                 self.elog(format!("Failed to execute command: {err}"));
             });
+            #[cfg(rce_verif)]
+            crate::verif_hooks::sched_point("uci.cmd.post");
         }
     }
 
@@ -143,6 +153,70 @@ impl Uci {
         self.join_handle = Some(thread::spawn(move || {
             search.search(&SimpleEvaluator, max_depth);
         }));
+        #[cfg(rce_verif)]
+        crate::verif_hooks::sched_point("uci.go.spawned");
+    }
+
+    /// Prints the session position on one line: 64 squares (a1..h8), side to move, castling
+    /// rights, en passant file, clocks, key and the record of earlier positions.
+    #[cfg(rce_verif)]
+    fn verif_dump(&self) {
+        use crate::board::piece::{Color, Kind};
+        use crate::board::ply::castling::{CastlingKind, CastlingStatus};
+        use crate::board::square::Square;
+
+        let mut squares = String::new();
+        for idx in 0..64u8 {
+            squares.push(match self.board.get_piece(Square::from(idx)) {
+                None => '.',
+                Some(Kind::Pawn(Color::White)) => 'P',
+                Some(Kind::Knight(Color::White)) => 'N',
+                Some(Kind::Bishop(Color::White)) => 'B',
+                Some(Kind::Rook(Color::White)) => 'R',
+                Some(Kind::Queen(Color::White)) => 'Q',
+                Some(Kind::King(Color::White)) => 'K',
+                Some(Kind::Pawn(Color::Black)) => 'p',
+                Some(Kind::Knight(Color::Black)) => 'n',
+                Some(Kind::Bishop(Color::Black)) => 'b',
+                Some(Kind::Rook(Color::Black)) => 'r',
+                Some(Kind::Queen(Color::Black)) => 'q',
+                Some(Kind::King(Color::Black)) => 'k',
+            });
+        }
+        let mut rights = String::new();
+        for (kind, chr) in [
+            (CastlingKind::WhiteKingside, 'K'),
+            (CastlingKind::WhiteQueenside, 'Q'),
+            (CastlingKind::BlackKingside, 'k'),
+            (CastlingKind::BlackQueenside, 'q'),
+        ] {
+            if self.board.castle_status(kind) == CastlingStatus::Available {
+                rights.push(chr);
+            }
+        }
+        if rights.is_empty() {
+            rights.push('-');
+        }
+        let keys: Vec<String> = self
+            .board
+            .verif_position_keys()
+            .iter()
+            .map(std::string::ToString::to_string)
+            .collect();
+        self.log(format!(
+            "verif_dump squares {squares} turn {} rights {rights} ep {} halfmove {} fullmove {} key {} record [{}]",
+            match self.board.current_turn {
+                Color::White => 'w',
+                Color::Black => 'b',
+            },
+            self.board
+                .verif_en_passant_file()
+                .map_or_else(|| "-".to_string(), |f| f.to_string()),
+            self.board.get_halfmove_clock(),
+            self.board.fullmove_counter,
+            self.board.zkey,
+            keys.join(",")
+        ));
     }
 
     fn setoption(&self, name: &String, value: Option<&String>) -> Result<(), String> {
